@@ -409,19 +409,19 @@ def fmin (a b : Float) : Float := if b < a then b else a
 def fmax (a b : Float) : Float := if a < b then b else a
 
 /-- IEEE double version of the writer's arithmetic: `(scale, counts in map order)`; input values in nm, row-major -/
-def cvCountsF (vals : List Float) : Float × List Int :=
+def cvCountsF (vals : List Float) (eps : Float := 2.220446049250313e-16) : Float × List Int :=
   let um := vals.map (· / 1000.0)
   let valid := um.filter (fun x => !x.isNaN)
   let mn := valid.foldl fmin (valid.headD (0.0 / 0.0))      -- `np.nanmin` of an all-NaN map is NaN
   let mx := valid.foldl fmax (valid.headD (0.0 / 0.0))
   let peak0 := fmax mn.abs mx.abs
-  let peak := if peak0 < 2.220446049250313e-16 then 1.0 else peak0
+  let peak := if peak0 < eps then 1.0 else peak0      -- `np.finfo(array.dtype).eps`
   let scale := 32767.0 / peak
   (scale, um.map fun x => if x.isNaN then cvNDA else (roundHalfEvenF (x * scale)).toInt64.toInt)
 
 /-- the writer: `(scale, counts in file order)` -/
-def cvWriteF (h w : Nat) (vals : List Float) : Float × List Int :=
-  let (scale, counts) := cvCountsF vals
+def cvWriteF (h w : Nat) (vals : List Float) (eps : Float := 2.220446049250313e-16) : Float × List Int :=
+  let (scale, counts) := cvCountsF vals eps
   (scale, permute 0 counts (flipIdx cvWriteFlip h w))
 
 /-- the reader on the integers of the data block: `ends` = the block ends in white space; when it does not, the last
